@@ -282,3 +282,21 @@ func (v *VerifClient) DownOffer(id string) string {
 	}
 	return d.pc.LocalDescription().SDP
 }
+
+// VerifWhipTrack fires the OnTrack handler of a WHIP session's connection
+// with a synthetic remote track (see VerifClient.Track).
+func VerifWhipTrack(c *WhipClient, kind webrtc.RTPCodecType, trackID, rid string, codec webrtc.RTPCodecParameters) bool {
+	c.mu.Lock()
+	up := c.connection
+	c.mu.Unlock()
+	if up == nil {
+		return false
+	}
+	h := up.pc.VerifOnTrack()
+	if h == nil {
+		return false
+	}
+	tr, recv := webrtc.VerifNewTrackRemote(kind, webrtc.SSRC(2000+len(up.tracks)), trackID, "stream-"+up.id, rid, codec, nil, nil)
+	h(tr, recv)
+	return true
+}
